@@ -428,7 +428,8 @@ func (w *apiWorld) famOfPath(p string) string {
 func (w *apiWorld) famOfName(name string) *apiFamily {
 	for _, f := range w.fams {
 		for _, n := range f.names {
-			if n == name || n+":latest" == name {
+			// names are canonicalised case-insensitively against existing ones
+			if strings.EqualFold(n, name) || strings.EqualFold(n+":latest", name) {
 				return f
 			}
 		}
